@@ -40,7 +40,7 @@ PROP = {'gen': ['base64'],
  'design_ref': 'DESIGN.md 6.11',
  'n_quick': 400,
  'n_thorough': 6000,
- 'shard': 50,
+ 'shard': 25,
  'level': 'proof',
  'trusted_base': [KERNEL,
                   'translate/kitty.py: KITTY_MAX_ID, KITTY_MAX_DIM and the argument of payload.chunks(..) are re-extracted from '
